@@ -33,6 +33,19 @@ Theorem C10_delay_machine : forall p evs ev w,
 Proof. exact machine_delay. Qed.
 Print Assumptions C10_delay_machine.
 
+(* the waits of a real effort (accidental loss of a reachable client, then any complete fault
+   script) are exactly the waits of the loop function, so C10_delay / C10_attempts_* speak about
+   the machine that is compared with the implementation *)
+Theorem C10_delay_effort_follows_loop : forall p evs r0 m0 ms,
+  let st := final p evs in
+  let sc := to_script (args st) (cns st) ((r0, m0) :: ms) in
+  reconnection p = true -> est st = EConn -> rtask st = None ->
+  snd (handle_reconnect p sc) <> LRunning ->
+  eff_waits (concat (snd (run_from p st (Loss r0 :: effort_events ((r0, m0) :: ms))))) =
+  waits (fst (handle_reconnect p sc)).
+Proof. exact effort_follows_loop. Qed.
+Print Assumptions C10_delay_effort_follows_loop.
+
 (* ---------------- attempts ---------------- *)
 Theorem C10_attempts_bounded : forall p s,
   (0 < attempts p)%Z ->
